@@ -188,7 +188,10 @@ func (s *SoftwrapScanner) Scan(ctx vxfw.DrawContext) bool {
 	// Clear token
 	s.token = []byte{}
 
-	var w uint16
+	// The widths are summed in ints: a word or a run of spaces can be
+	// wider than a uint16 holds
+	var w int
+	width := int(s.width)
 	for {
 		seg, rest, br, state := uniseg.FirstLineSegment(s.rest, s.state)
 
@@ -198,20 +201,20 @@ func (s *SoftwrapScanner) Scan(ctx vxfw.DrawContext) bool {
 		trSpace := seg[len(word):]
 
 		wordChars := ctx.Characters(string(word))
-		var wordLen uint16
+		var wordLen int
 		for _, char := range wordChars {
-			wordLen += uint16(char.Width)
+			wordLen += char.Width
 		}
 
 		spaceChars := ctx.Characters(string(trSpace))
-		var spaceLen uint16
+		var spaceLen int
 		for _, char := range spaceChars {
-			spaceLen += uint16(char.Width)
+			spaceLen += char.Width
 		}
 
 		// This word is longer than the line. We have to break on
 		// graphemes
-		if wordLen > s.width {
+		if wordLen > width {
 			// End a line that already has content first: the word
 			// is broken from the start of the next line, so that
 			// the parts of it which fit on a line stay whole
@@ -224,7 +227,7 @@ func (s *SoftwrapScanner) Scan(ctx vxfw.DrawContext) bool {
 			for _, char := range wordChars {
 				// The line takes graphemes while they fit, and
 				// always at least one
-				if len(s.token) > 0 && w+uint16(char.Width) > s.width {
+				if len(s.token) > 0 && w+char.Width > width {
 					full = true
 				}
 				if full {
@@ -233,7 +236,7 @@ func (s *SoftwrapScanner) Scan(ctx vxfw.DrawContext) bool {
 					continue
 				}
 				s.token = append(s.token, []byte(char.Grapheme)...)
-				w += uint16(char.Width)
+				w += char.Width
 			}
 			// Append the trailing space
 			s.rest = append(s.rest, trSpace...)
@@ -247,7 +250,7 @@ func (s *SoftwrapScanner) Scan(ctx vxfw.DrawContext) bool {
 		}
 
 		// Check if this segment fits. If it doesn't we are done
-		if w+wordLen > s.width {
+		if w+wordLen > width {
 			return true
 		}
 
@@ -272,7 +275,7 @@ func (s *SoftwrapScanner) Scan(ctx vxfw.DrawContext) bool {
 		w += wordLen
 
 		// If the space doesn't fit, we return now
-		if w+spaceLen > s.width {
+		if w+spaceLen > width {
 			return true
 		}
 
